@@ -12,6 +12,17 @@ def _p(corpora, level='model_checking', rule='', assumptions=None):
 
 
 PROPS = {
+    'C18': _p(lambda t: ['meta', 'layout'],
+              rule='a case is a metadata value (title bytes / Unix day + second of day / language code / presence combination) on a muxer run, each also compared with the metadata-free run of the same history; non-trivial when it differs from the empty metadata',
+              assumptions=['dates are judged for 1970-01-01 .. 9999-12-31; larger creation times only for termination (C12)', 'the closed-form Civil() of Meta.tla is itself checked by TLC against the counting definition (MCMeta)', 'malformed language codes are not judged (only absence of panics)']),
+
+    'C02': _p(lambda t: ['layout', 'frag', 'fraginit', 'meta'],
+              rule='a case is an emitted byte stream (progressive file, init segment, media segment) with a distinct configuration/history; every one is non-trivial'),
+    'C07': _p(lambda t: ['layout', 'fraginit', 'fncfg', 'codeccfg'],
+              rule='a case is a distinct first key frame / builder parameter-set tuple / configuration (codec x dimensions x audio rate x channels); non-trivial when it is accepted and a file or init segment is produced'),
+    'C19': _p(lambda t: ['layout', 'fraginit', 'frag'],
+              rule='a case is an emitted byte stream with a distinct configuration (codec x audio x metadata x layout x dimensions / init segment / media segment); every one is non-trivial'),
+
     'C14': _p(lambda t: ['fn14', 'adts'],
               rule='a case is an input byte string (all strings up to the length bound over {00,01,02,03,FF}, enumerated completely; completeness is itself checked by TLC against the canonical enumeration) or an ADTS header tuple (frame length x protection flag x buffer length x sampling index x channel configuration); non-trivial when it can contain a start code (length >= 3)',
               assumptions=['exhaustive only up to the length bound and over the 5-byte alphabet, which contains every start-code-relevant byte class (00, 01, other low values, a high value)', 'ADTS payloads are recovered from finished files by the independent reader']),
